@@ -49,6 +49,31 @@ for pf in a.parts:
         scen.append(s)
     assumptions += part.get('assumptions') or []
 
+# conformance: scenarios of engine C (unrewritten code under testing/synctest) must have explored the same
+# histories with the same observations as their engine S namesakes
+conf_exec = 0
+conf_notes = []
+by_name = {s['scenario']: s for s in scen if s.get('engine') == 'S'}
+for c in [s for s in scen if s.get('engine') == 'C']:
+    m = by_name.get(c['scenario'])
+    if m is None:
+        conf_notes.append(f"MISMATCH {c['scenario']}: no engine S counterpart")
+        continue
+    if c.get('violations'):
+        for v in c['violations']:
+            conf_notes.append(f"MISMATCH {c['scenario']}: unrewritten code under synctest reports {v['sig']}: {(v.get('message') or '')[:300]}")
+        continue
+    if not (m.get('exhaustive') and c.get('exhaustive')) or m.get('violations'):
+        conf_notes.append(f"{c['scenario']}: not compared (incomplete or violating run)")
+        continue
+    if c.get('executions') != m.get('executions') or sorted(c.get('obs_hashes') or []) != sorted(m.get('obs_hashes') or []):
+        conf_notes.append(f"MISMATCH {c['scenario']}: rewritten code explored {m.get('executions')} histories / "
+                          f"{len(m.get('obs_hashes') or [])} distinct observations, unrewritten code {c.get('executions')} / {len(c.get('obs_hashes') or [])}")
+        continue
+    conf_exec += c.get('executions', 0)
+    conf_notes.append(f"{c['scenario']}: {c.get('executions')} histories, identical observation sets")
+scen = [s for s in scen if s.get('engine') != 'C']
+
 states = transitions = executions = 0
 samples = []
 exhaustive = True
@@ -93,6 +118,8 @@ for v in viol_new:
 cov = {
     'states': states, 'transitions': transitions,
     'traces_validated_against_impl': executions,
+    'histories_replayed_on_unrewritten_code': conf_exec,
+    'conformance': conf_notes,
     'samples': samples[:6] or [{'note': 'no sample recorded'}],
     'executions': executions,
     'evaluations': executions,
@@ -121,6 +148,11 @@ json.dump(ev, open(tmp, 'w'), indent=1)
 os.replace(tmp, a.evidence)
 for l in lines:
     print(l)
+for n in conf_notes:
+    if n.startswith('MISMATCH'):
+        # supporting evidence only: the real runtime is not deterministic (map order, goroutine order), so a
+        # mismatch is recorded and shown but never decides the verdict
+        print('CONFORMANCE-NOTE:', n, file=sys.stderr)
 if internal:
     print('INTERNAL ERROR:', internal[:2000], file=sys.stderr)
     sys.exit(2)
